@@ -54,6 +54,8 @@ stats! {
     clones_ge2,
     clones_full,
     clones_empty,
+    clone_froms,
+    clone_from_shrinks,
     mutate_after_clone,
     observe_other_after_mutation,
     dup_key_supplied,
